@@ -4,6 +4,7 @@ package minersc
 
 import (
 	"sort"
+	"sync"
 
 	"0chain.net/chaincore/block"
 	cstate "0chain.net/chaincore/chain/state"
@@ -87,6 +88,14 @@ func VerifC38AddNode(balances cstate.StateContextI, n VerifC38Node, sharder bool
 		}
 	}
 	return verifC38MinerNode(n, sharder).save(balances)
+}
+
+// VerifC38ResetLocks replaces the per-phase mutexes: setPhaseNode takes them without defer, so a panic inside a phase
+// function that a harness recovered from (in a node it ends the process) would leave one locked for ever.
+func VerifC38ResetLocks() {
+	for k := range lockPhaseFunctions {
+		lockPhaseFunctions[k] = &sync.Mutex{}
+	}
 }
 
 // VerifC38SetPhaseRounds replaces the configured phase lengths (package-level table).
